@@ -4,7 +4,7 @@ Model.Replace — replacing the main scheduler of the stream the caller runs on
 (src/stream.c `xstream_update_main_sched`, third branch; src/ythread.c
 `ABTI_ythread_callback_suspend_replace_sched`; src/thread.c `thread_main_sched_func`).
 
-One execution stream.  Schedulers are identified by `Id`; scheduler `x` serves exactly the
+One execution stream.  Schedulers are identified by `RId`; scheduler `x` serves exactly the
 pool `x` (its `pools[0]`; the other pools of a multi-pool scheduler play no role in the
 protocol).  A pool's content is the set of ULTs that are `ready` and associated with it.
 
@@ -27,34 +27,34 @@ scheduler; a push to a freed pool sets `uaf`.
 -/
 namespace ArgoVerif.Model.Replace
 
-abbrev Id := Nat
+abbrev RId := Nat
 
 inductive UStat where
   | running | ready | blocked | done
 deriving DecidableEq, Repr
 
 structure St where
-  ults : List Id            -- the ULTs of this stream
-  cur : Id                  -- p_xstream->p_main_sched
-  freed : Id → Bool         -- scheduler freed (ABTI_sched_discard_and_free)
-  rsched : Id → Option Id   -- p_sched->p_replace_sched
-  rwaiter : Id → Option Id  -- p_sched->p_replace_waiter
-  ustat : Id → UStat
-  upool : Id → Id           -- p_ythread->thread.p_pool
+  ults : List RId            -- the ULTs of this stream
+  cur : RId                  -- p_xstream->p_main_sched
+  freed : RId → Bool         -- scheduler freed (ABTI_sched_discard_and_free)
+  rsched : RId → Option RId   -- p_sched->p_replace_sched
+  rwaiter : RId → Option RId  -- p_sched->p_replace_waiter
+  ustat : RId → UStat
+  upool : RId → RId           -- p_ythread->thread.p_pool
   onSched : Bool            -- the main scheduler's own ULT is running
   automatic : Bool
   uaf : Bool                -- a work unit was pushed to a freed pool
 
 inductive Ev where
-  | request (u x : Id)
-  | run (u : Id)
-  | yield (u : Id)
-  | finish (u : Id)
+  | request (u x : RId)
+  | run (u : RId)
+  | yield (u : RId)
+  | finish (u : RId)
   | replace
 deriving DecidableEq, Repr
 
 /-- `ABTI_ythread_resume_and_push(p_waiter)`: push to the pool the waiter is associated with -/
-def resumePush (s : St) (w : Id) : St :=
+def resumePush (s : St) (w : RId) : St :=
   { s with ustat := upd s.ustat w .ready,
            uaf := s.uaf || (s.automatic && s.freed (s.upool w)) }
 
@@ -117,7 +117,7 @@ def runNO (s : St) : List Ev → Option St
     | some s' => runNO s' es
 
 /-- a stream whose main scheduler is `0`, ULT `0` running, the other listed ULTs ready in pool 0 -/
-def init (ults : List Id) (automatic : Bool) : St :=
+def init (ults : List RId) (automatic : Bool) : St :=
   { ults := ults, cur := 0, freed := fun _ => false, rsched := fun _ => none, rwaiter := fun _ => none,
     ustat := fun u => if u = 0 then .running else .ready, upool := fun _ => 0,
     onSched := false, automatic := automatic, uaf := false }
